@@ -231,12 +231,15 @@ pub fn generate(ctx: &mut Ctx) {
         };
         let ee_tbs = encode_id_tbs(&ee, &pki::hex_name(&pool.keys[ee_signer].ski), &pki::hex_name(&ee.ski));
         let ee_cert = pki::signed(&ee_tbs, &pool.sign(ee_signer, &ee_tbs));
-        let rev: Vec<(Vec<u8>, i64)> = revoked.iter().map(|s| (s.clone(), nb)).collect();
+        // revocation dates before, at and after the evaluation time (round 17, C10-17): the statement says "does not
+        // list the EE certificate", whatever the entry's date
+        let rev: Vec<(Vec<u8>, i64)> = revoked.iter().map(|s| (s.clone(), match rng.below(6) {
+            0 => nb, 1 => when - 1, 2 => when, 3 => when + 1, 4 => na, _ => when + 31_536_000 })).collect();
         let crl_tbs = pki::encode_crl_tbs(&pki::hex_name(&pool.keys[crl_signer].ski), crl_this, crl_next, &rev,
             crl_aki.as_deref(), Some(&[1, 2, 3]));
         let mut crl = pki::signed(&crl_tbs, &pool.sign(crl_signer, &crl_tbs));
         if second_crl {
-            let rev2 = vec![(ee.serial.clone(), nb)];
+            let rev2 = vec![(ee.serial.clone(), if rng.bool() { nb } else { when + 1 + rng.below(100_000) as i64 })];
             let tbs2 = pki::encode_crl_tbs(&pki::hex_name(&pool.keys[peer].ski), nb, na, &rev2, crl_aki.as_deref(), Some(&[1, 2, 4]));
             crl.extend_from_slice(&pki::signed(&tbs2, &pool.sign(peer, &tbs2)));
             revoked.push(ee.serial.clone());
